@@ -116,16 +116,31 @@ def corpus():
     yield {"op": "tg_replace", "tg": g, "name": "a", "tier": wide, "report": "error", "grid": True}
     # A1 (fixed) downstream: Textgrid.crop with rebase when a tier has nothing in the window
     yield {"op": "tg_crop", "tg": g, "a": 3.0, "b": 4.0, "mode": "strict", "rebase": True, "grid": True}
+    # A28 (fixed): Textgrid.eraseRegion with doShrink and a region sticking out of the span returned a textgrid whose tiers
+    # did not share its span (validate() False)
+    g2 = {"lo": 0.0, "hi": 10.0, "tiers": [{"k": "P", "name": "marks", "es": [[3.0, "p"], [8.0, "q"]], "lo": 0.0, "hi": 10.0},
+                                        {"k": "P", "name": "none", "es": [], "lo": 0.0, "hi": 10.0},
+                                        {"k": "I", "name": "e", "es": [], "lo": 0.0, "hi": 10.0}]}
+    for (a, b) in [(6.0, 15.0), (5.0, 30.0), (-5.0, 2.0), (12.0, 15.0)]:
+        yield {"op": "tg_erase", "tg": g2, "a": a, "b": b, "shrink": True, "grid": True}
 
 
 def gen_edit(rnd, domain):
     g = tgops.gen_tg(rnd, domain, valid=rnd.random() < 0.8)
     pool = sorted({x for t in g["tiers"] for x in T.boundary_pool(t, rnd, domain)})
     pool = [x for x in pool if 0 <= x <= g["hi"]]
+    inside = list(pool)
+    if rnd.random() < 0.25:
+        pool = pool + T.outside_times(rnd, domain, g["lo"], g["hi"])
     a, b = rnd.choice(pool), rnd.choice(pool)
     if a > b and rnd.random() < 0.95:
         a, b = b, a
     k = rnd.random()
+    if not 0.25 <= k < 0.45:
+        # only eraseRegion is exercised with regions outside the span here
+        a, b = rnd.choice(inside), rnd.choice(inside)
+        if a > b and rnd.random() < 0.95:
+            a, b = b, a
     if k < 0.25:
         return {"op": "tg_crop", "tg": g, "a": a, "b": b, "mode": rnd.choice(["strict", "lax", "truncated"]), "rebase": rnd.random() < 0.5}
     if k < 0.45:
